@@ -76,7 +76,10 @@ LEVEL_NOTE = ("partial: on the unchanged tree the property is violated (known fi
               "the universally quantified theorems are conservation, the partial theorem (no loss outside the window) and the "
               "repair specification, not the target. The "
               "model cannot exhibit: real cloud latency/failures, script tasks, reunited in-flight jobs, debug (local "
-              "docker) mode, external stop(), pre-emption inside a line, and the arrayer's internals (C11).")
+              "docker) mode, external stop(), pre-emption inside a line, and the arrayer's internals (C11): the arrayer is one "
+              "coarse thread here; the tie adds a scheduling point between the return of its thread function and the end "
+              "of the thread (never reached on the unchanged tree, where that function only returns when stopped), so an "
+              "arrayer that winds down on its own is exercised against concurrent submissions by the oracle.")
 TECHNIQUE = "Lean 4 line-level interleaving model (5 variants) + closed counter-example traces + sys.monitoring lockstep replay"
 
 SLEEP = "time.sleep(self.interval)"
@@ -177,7 +180,9 @@ EXIT_LABELS = {
     "gcp": {19, 20, 21, 32, 33, 22, 23, 24, 25, 17, 18}, "glue": {20, 21, 17, 18},
 }
 ARR_WAIT = "<arrayer-wait>"
+THREAD_EXIT = "<thread-exit>"
 DRAIN_LIMIT = 3000
+STALL_STEPS = 400      # a monitor loop iteration is < 40 lines
 
 
 # ------------------------------------------------------------------ fakes shared by the rigs
@@ -256,7 +261,8 @@ class Rig:
         roles = {"_monitor": "M", "_monitor_stale_jobs": "A", "_submission_thread": "U"}
         join_rx = re.compile(r"^self\._thread\.join\(\)")
         self.ctl = Controller(self.targets, role_of=lambda n: roles.get(n, "T"),
-                              blockers=[(join_rx, lambda frame, thread: frame.f_locals["self"]._thread.is_alive())])
+                              blockers=[(join_rx, lambda frame, thread: frame.f_locals["self"]._thread.is_alive())],
+                              exit_roles={"A"})     # an arrayer thread whose function returns on its own stays alive one more step
         if hasattr(self.ex, "arrayer"):
             self.ex.arrayer._exit_flag = CtlEvent(self.ctl, ARR_WAIT, wake_on_set=True)
 
@@ -489,9 +495,15 @@ class Rig:
 
     def drain(self, limit=None):
         """Run every thread to the end (scheduler first, then submission threads, arrayer when it has work, monitors)."""
+        last, same = None, 0
         for _ in range(limit or DRAIN_LIMIT):
             if self.all_done():
                 return True
+            st = self.state()
+            same = same + 1 if st == last else 0
+            last = st
+            if same >= STALL_STEPS:
+                return False        # many monitor loop iterations without any change of the protocol state: no progress
             order = ["S"] + [n for n in self.ctl.names() if n.startswith("U")]
             if self.queue() and hasattr(self.ex, "arrayer"):
                 order.append("A")
@@ -566,8 +578,12 @@ def oracle(ctx, case, rig, finished):
         ok = False
     if not finished and not case.get("partial"):
         missing = sorted(set(range(rig.njobs)) - set(rep))
-        ctx.violation(f"C10-{v}-never-quiescent", f"job(s) {missing} not reported and the threads do not come to rest within "
-                      f"{DRAIN_LIMIT} further steps although the fake API completes every job at the next poll "
+        stuck = bool(rig.queue()) and hasattr(rig.ex, "arrayer") and not rig.arr_alive()
+        ctx.violation(f"C10-{v}-job-stuck-in-dead-arrayer" if stuck else f"C10-{v}-never-quiescent",
+                      f"job(s) {missing} not reported: " + ("the job arrayer's thread has ended with the job still queued and "
+                      "add_job()/start() did not restart it, the executor's monitor polls forever " if stuck else
+                      "the threads keep running without progress ") +
+                      f"(no change of the protocol state for {STALL_STEPS} steps, drain limit {DRAIN_LIMIT}) although the fake API completes every job at the next poll "
                       f"(is_running={rig.flag()}, pending={rig.pend()}, queue={rig.queue()})", case,
                       expected="every submitted job reported as done or failed", actual=dict(reported=rep), kind="interleaving")
         ok = False
@@ -609,6 +625,11 @@ def directed(rig, script):
             for _ in range(item[2]):
                 if name() is None or not rig.do(name()):
                     break
+        elif item[1] == "untilexit":        # step until the thread's function has returned (at most k steps)
+            for _ in range(item[2]):
+                n = name()
+                if n is None or rig.next_label(rig.thread_of(n)) == ("", THREAD_EXIT) or not rig.do(n):
+                    break
         elif item[1] == "until":
             stop = {LABELS[v][i] for i in item[2]}
             for _ in range(2000):
@@ -638,6 +659,12 @@ def witness_scripts():
                    ("S", "run"),                                      # submit(job 1): sees the monitor as running
                    ("M", "run"), ("U", "run")]
         out.append(dict(name=v + "-window", variant=v, njobs=2, signature=f"C10-{v}-submit-in-exit-window", script=script))
+    # arrayer thread life cycle (its function never returns on its own in the code as found): a submission between the
+    # return of _monitor_stale_jobs and the end of that thread must still reach the API
+    for v in ("batch", "k8s", "gcp"):
+        out.append(dict(name=v + "-arrayer-wind-down", variant=v, njobs=3, signature=None,
+                        script=[("S", "n", 1), ("S", "until", {1}), ("A", "n", 1), ("A", "untilexit", 3),
+                                ("S", "n", 1), ("S", "until", {1}), ("A", "n", 2)]))
     out.append(dict(name="glue-in-hand", variant="glue", njobs=1, signature="C10-glue-in-hand-at-loop-exit",
                     script=[("S", "run"), ("U", "until", {46}),        # popleft done, job in hand
                             ("M", "run"), ("U", "run")]))
@@ -653,6 +680,10 @@ def random_schedule(rig, rng, nsteps):
         if not evs:
             break
         if adversarial and rng.random() < 0.7:
+            if "S" in evs and rig.next_label(rig.thread_of("A")) == ("", THREAD_EXIT):
+                rig.do("S")         # add_job + start() while the arrayer thread is winding down
+                cur = "S"
+                continue
             if "S" in evs and rig.exiting_monitor():
                 rig.do("S")
                 cur = "S"
@@ -712,6 +743,8 @@ def run(ctx):
     for w in witness_scripts():
         r = exec_case(ctx, w["variant"], w["njobs"], script=w["script"], tags=dict(kind="witness-" + w["name"]))
         recs.append(r)
+        if w["signature"] is None:
+            continue
         if r["ok"]:     # the model's counter-example no longer fails on the implementation: the model is stale
             ctx.expect_known(w["signature"], False, r["full"], "witness " + w["name"])
             if not any(k.get("signature") == w["signature"] for k in ctx.known):
